@@ -46,7 +46,9 @@ def err_class(exc):
 def values_for(name, now, leeway):
     vals = list(V_SCALARS) + [[], ["a", "b"], ["a"], [1], {}, {"a": 1}, "abc", "https://api.example.com", ["abc", "x"]]
     lo, hi = now - leeway, now + leeway
-    times = [lo - 1, lo - 0.5, lo, lo + 0.5, lo + 1, now, hi - 1, hi - 0.5, hi, hi + 0.5, hi + 1, -1, 2 ** 40, float(hi + 1), float(lo - 1), 1e100]
+    # incl. what an issuer that counts milliseconds would send, and the magnitudes around it
+    times = [lo - 1, lo - 0.5, lo, lo + 0.5, lo + 1, now, hi - 1, hi - 0.5, hi, hi + 0.5, hi + 1, -1, 2 ** 40, float(hi + 1), float(lo - 1), 1e100,
+             now * 1000, (now + 5) * 1000, 10 ** 11 - 1, 10 ** 11, 10 ** 14]
     if name in ("exp", "nbf", "iat"):
         return times + vals
     return vals + [now, hi + 1]
@@ -56,6 +58,12 @@ def requested(v):
     """Option 'value' candidates relative to the claim value v."""
     out = [("absent", None), ("other", "nomatch"), ("blank", "")]
     base = v[0] if isinstance(v, list) and v and isinstance(v[0], (str, int)) else v
+    if isinstance(base, str):
+        import unicodedata
+        for form in ("NFC", "NFD", "NFKC"):
+            twin = unicodedata.normalize(form, base)
+            if twin != base:
+                out.append((f"{form}-twin (other code points)", twin))
     if isinstance(base, (str, int, float, bool)) and base is not None:
         out.append(("same", base))
         if isinstance(base, str) and len(base) > 1:
